@@ -502,9 +502,9 @@ def run(ctx):
         xyz_plan = []   # (natoms, nframes, style, pairs, max_pairs)
         lmp_plan = []
         if ctx.quick:
-            xyz_plan = [(1, 2, 0, True, None), (2, 2, 1, True, 4000), (1, 3, 2, True, 4000), (3, 2, 2, False, None),
+            xyz_plan = [(1, 2, 0, True, None), (2, 2, 1, True, 2500), (1, 3, 2, True, 2500), (3, 2, 2, False, None),
                         (4, 4, 1, False, None), (2, 3, 0, False, None), (1, 1, 1, True, None), (3, 4, 0, False, None)]
-            lmp_plan = [(1, 2, 0, True, 5000), (2, 2, 1, True, 2500), (3, 3, 0, False, None), (4, 4, 1, False, None),
+            lmp_plan = [(1, 2, 0, True, 3000), (2, 2, 1, True, 1500), (3, 3, 0, False, None), (4, 4, 1, False, None),
                         (1, 1, 0, True, None), (2, 4, 0, False, None), (12, 2, 0, False, None)]
         else:
             for na in range(1, 5):
